@@ -87,7 +87,7 @@ def coq_out(expr, t, mod):
         return f"[bout ({expr})]"
     if t[0] == "rec":
         rec = mod.recs[t[1]]
-        return "(" + " ++ ".join(coq_out(f"{rec.name}_{n} ({expr})", ft, mod) for n, ft in rec.fields) + ")"
+        return "(" + " ++ ".join(coq_out(f"{rec.name}_{n} ({expr})", ft, mod) for n, ft in rec.fields) + ")%list"
     if t[0] == "tup":
         n = len(t[1])
         parts = []
@@ -95,7 +95,9 @@ def coq_out(expr, t, mod):
             names = ["_"] * n
             names[i] = "p__"
             parts.append(coq_out(f"let '({', '.join(names)}) := ({expr}) in p__", tt, mod))
-        return "(" + " ++ ".join(parts) + ")"
+        return "(" + " ++ ".join(parts) + ")%list"
+    if t[0] == "list":
+        return f"(flat_map (fun e__ => {coq_out('e__', t[1], mod)}) ({expr}))"
     raise ValueError(t)
 
 
